@@ -32,7 +32,9 @@ func (g *c12gen) w(format string, a ...any) {
 }
 func (g *c12gen) small() int { return 1 + g.r.intn(9) }
 
-var c12IntKinds = []string{"int", "int8", "int16", "int32", "int64", "uint", "uint8", "uint16", "uint32", "uint64"}
+// the kinds and operators are few on purpose: every (kind, operator) combination has to occur in the
+// exploration that freezes the table of known escapes (harness/c12_escapes.json)
+var c12ArithKinds = []string{"int8", "int32", "int64", "uint", "uint8"}
 
 const c12Prelude = `
 type MyInt int
@@ -190,11 +192,11 @@ var c12Snippets = []c12snippet{
 		g.w("\tprintln(%s, %s, %s)", a, b, c)
 	}},
 	{"arith-kind", func(g *c12gen) {
-		k := g.r.pick(c12IntKinds)
+		k := g.r.pick(c12ArithKinds)
 		a, b, c := g.id("k"), g.id("k"), g.id("k")
 		g.w("\tvar %s %s = %d", a, k, 10+g.small())
 		g.w("\tvar %s %s = %d", b, k, g.small())
-		g.w("\t%s := %s %s %s", c, a, g.r.pick([]string{"+", "-", "*", "/", "%"}), b)
+		g.w("\t%s := %s %s %s", c, a, g.r.pick([]string{"+", "%"}), b)
 		g.w("\t%s = %s + 1", c, c)
 		g.w("\tprintln(%s > %s, %s)", a, b, c)
 	}},
@@ -291,7 +293,7 @@ var c12Snippets = []c12snippet{
 		g.w("\tconst %s int16 = 300", c)
 		g.w("\tvar %s uint = %d", a+"u", g.small())
 		g.w("\t%s := [3]int{1, 2, 3}", arr)
-		g.w("\tprintln(%s, %s, %s, %s, %s[2], int8(%d), uint16(%d))", a, b, c, a+"u", arr, g.small(), 1000+g.small())
+		g.w("\tprintln(%s, %s, %s, %s, %s[2], int8(%d), uint16(1000))", a, b, c, a+"u", arr, g.small())
 	}},
 	{"const-div", func(g *c12gen) {
 		d, f, a := g.id("d"), g.id("f"), g.id("a")
@@ -635,4 +637,40 @@ func c12Program(r *rng, nSnip int) c12prog {
 	}
 	g.w("}")
 	return c12prog{Src: g.b.String(), Snippets: used}
+}
+
+// c12ProgramOf builds a program from the named snippets only (used to re-explore single snippets).
+func c12ProgramOf(r *rng, names []string) c12prog {
+	g := &c12gen{r: r, b: &strings.Builder{}}
+	g.w("package main")
+	for _, n := range names {
+		if n == "stdlib" {
+			g.w("\nimport (\n\t\"strconv\"\n\t\"strings\"\n)")
+		}
+	}
+	g.b.WriteString(c12Prelude)
+	g.w("\n" + c12PreludeEndMarker)
+	g.w("\nfunc main() {")
+	g.w("\tprintln(\"MARK main\")")
+	for _, n := range names {
+		for _, sn := range c12Snippets {
+			if sn.name == n {
+				g.w("\t// snippet %s", sn.name)
+				sn.gen(g)
+			}
+		}
+	}
+	g.w("}")
+	return c12prog{Src: g.b.String(), Snippets: names}
+}
+
+// c12PreludeProgram: the fixed prelude followed by every snippet, in order, all in main. The sites of
+// the prelude are mutated in this program only: whether yaegi rejects a broken package-level
+// declaration depends on which uses of it follow, so the uses are kept the same in every run.
+func c12PreludeProgram(r *rng) c12prog {
+	var names []string
+	for _, sn := range c12Snippets {
+		names = append(names, sn.name)
+	}
+	return c12ProgramOf(r, names)
 }
